@@ -20,7 +20,7 @@ pub fn def() -> PropDef {
 }
 
 fn streams(t: Tier) -> Vec<StreamDef> {
-    vec![st("flagwords", t.n(65536, 65536 * 4, 60, 65536), true), st("hostile", t.n(40_000, 2_000_000, 40, 10_000), false)]
+    vec![st("flagwords", t.n(65536, 65536 * 4, 60, 65536), true), st("hostile", t.n(40_000, 2_000_000, 40, 10_000), false), st("threads", t.n(64, 1600, 1, 64), false)]
 }
 
 fn floors(t: Tier) -> Vec<(String, u64)> {
@@ -36,6 +36,7 @@ fn floors(t: Tier) -> Vec<(String, u64)> {
         ("untripped.ok".into(), 5_000),
         ("default.compared".into(), 60_000),
         ("bit_independence.flips".into(), 20_000),
+        ("threads.decodes".into(), 10_000),
     ]
 }
 
@@ -169,8 +170,78 @@ pub fn judge(ctx: &mut Ctx, b: &[u8]) {
     ctx.rep.sample(|| J::obj(vec![("flag_word", J::s(format!("{:#06x}", w))), ("input_hex", J::hex(&b[..b.len().min(48)])), ("results", J::A(results.iter().map(|r| J::s(r.class())).collect()))]));
 }
 
+/// The same (input, option set) pairs decoded concurrently from several threads, each thread
+/// using its own option sets: an option must act only on the call it was passed to.
+fn thread_case(ctx: &mut Ctx) {
+    use std::sync::{Arc, Barrier};
+    let n_threads = if ctx.tier == Tier::Miri { 3 } else { 8 };
+    let n_msgs = if ctx.tier == Tier::Miri { 6 } else { 48 };
+    let mut work: Vec<(Vec<u8>, SOpts, &'static str)> = Vec::new();
+    for _ in 0..n_msgs {
+        // control and data messages whose header trips one of the checks or none
+        let mut w: u16 = (2 << 4) | if ctx.rng.bool() { BIT_T | BIT_L | BIT_S } else { 0 };
+        match ctx.rng.below(5) {
+            0 => w |= if ctx.rng.bool() { BIT_P } else { BIT_O },
+            1 => w = (w & !VERSION_MASK) | ((*ctx.rng.pick(&[0u16, 1, 3, 15])) << 4),
+            2 => w |= 1 << *ctx.rng.pick(&[0u16, 1, 2, 3, 10, 11, 13]),
+            _ => {}
+        }
+        let b = body_for_word(&mut ctx.rng, w, 2);
+        let o = SOpts::from_index(ctx.rng.below(8) as u8);
+        let want = match exec::decode_msg(&b, Some(o), Rk::Slice).out {
+            Out::Ok(_) => "ok",
+            Out::Err(_) => "err",
+            _ => "abnormal",
+        };
+        work.push((b, o, want));
+    }
+    ctx.rep.case(format!("thr{:?}", work.iter().map(|w| (w.1.index(), w.0.len())).collect::<Vec<_>>()).as_bytes(), true);
+    let work = Arc::new(work);
+    let barrier = Arc::new(Barrier::new(n_threads));
+    let seed = ctx.rng.next();
+    let mut hs = Vec::new();
+    for t in 0..n_threads {
+        let (work, barrier) = (work.clone(), barrier.clone());
+        hs.push(std::thread::spawn(move || {
+            let mut r = crate::gen::Rng::new(seed ^ (t as u64) << 32);
+            let mut bad = Vec::new();
+            barrier.wait();
+            for _round in 0..(if work.len() > 10 { 200 } else { 2 }) {
+                let i = r.below(work.len() as u64) as usize;
+                let (b, o, want) = &work[i];
+                let got = match exec::decode_msg(b, Some(*o), Rk::Slice).out {
+                    Out::Ok(_) => "ok",
+                    Out::Err(_) => "err",
+                    _ => "abnormal",
+                };
+                if got != *want {
+                    bad.push((i, got));
+                }
+                if r.chance(1, 4) {
+                    std::thread::yield_now();
+                }
+            }
+            bad
+        }));
+    }
+    for h in hs {
+        if let Ok(bad) = h.join() {
+            ctx.rep.bucket_n("threads.decodes", if work.len() > 10 { 200 } else { 2 });
+            for (i, got) in bad {
+                let (b, o, want) = &work[i];
+                ctx.violate(
+                    "C14:options-leak-between-threads",
+                    format!("decoding with options {} gives {} on one thread alone but {} while other threads decode with other options", opts_str(Some(*o)), want, got),
+                    w_input(b, Some(*o)),
+                );
+            }
+        }
+    }
+}
+
 fn run(ctx: &mut Ctx) {
     match ctx.stream {
+        "threads" => thread_case(ctx),
         "flagwords" => {
             let w = (ctx.idx % 65536) as u16;
             let pass = ctx.idx / 65536;
